@@ -86,13 +86,34 @@ def lazy_cache_rule(repo: Repo, prop: str, rule_id: str, module_prefixes: Tuple[
                 cache = t.operand.attr
             if cache is None:
                 continue
-            stores = [s_ for s_ in n.body if isinstance(s_, (ast.Assign, ast.AnnAssign)) and any(isinstance(tt, ast.Attribute) and tt.attr == cache and attr_chain(tt.value) == selfname for tt in (s_.targets if isinstance(s_, ast.Assign) else [s_.target]))]
+            stores = [s_ for b_ in n.body for s_ in ast.walk(b_) if isinstance(s_, (ast.Assign, ast.AnnAssign)) and any(isinstance(tt, ast.Attribute) and tt.attr == cache and attr_chain(tt.value) == selfname for tt in (s_.targets if isinstance(s_, ast.Assign) else [s_.target]))]
             if not stores or stores[0].value is None:
                 continue
             # it is a cache only if the attribute is read back (returned / used) outside the `if`
             n_caches += 1
             expr = stores[0].value
-            params_read = sorted({x.id for x in ast.walk(expr) if isinstance(x, ast.Name) and x.id in fn.params[1:]})
+            params_read = {x.id for x in ast.walk(expr) if isinstance(x, ast.Name) and x.id in fn.params[1:]}
+            # a local that is kept: everything that flows into it in this function counts
+            local_names = {x.id for x in ast.walk(expr) if isinstance(x, ast.Name) and x.id not in fn.params}
+            for _ in range(2):
+                for st_ in ast.walk(fn.node):
+                    if isinstance(st_, (ast.Assign, ast.AugAssign)):
+                        tgs = st_.targets if isinstance(st_, ast.Assign) else [st_.target]
+                        roots = set()
+                        for tg in tgs:
+                            b_ = tg
+                            while isinstance(b_, (ast.Subscript, ast.Attribute)):
+                                b_ = b_.value
+                            if isinstance(b_, ast.Name):
+                                roots.add(b_.id)
+                        if roots & local_names:
+                            for x in ast.walk(st_.value):
+                                if isinstance(x, ast.Name):
+                                    if x.id in fn.params[1:]:
+                                        params_read.add(x.id)
+                                    elif x.id not in fn.params:
+                                        local_names.add(x.id)
+            params_read = sorted(params_read)
             key = f"cache:{cache}"
             if params_read:
                 r.bad(
@@ -123,6 +144,18 @@ def lazy_cache_rule(repo: Repo, prop: str, rule_id: str, module_prefixes: Tuple[
                     resets = any(isinstance(x, ast.Assign) and any(isinstance(tt, ast.Attribute) and tt.attr == cache for tt in x.targets) for x in ast.walk(m.node))
                     if not resets:
                         stale_by.append((m, sorted(hit)))
+            # a class with an explicit invalidation method: every lazy cache must be reset THERE (resetting it where the value is
+            # rebuilt comes too late for readers that look at the cache first)
+            inval = [m for c in repo.mro(fn.cls) for m in c.methods.values() if m.name in ("invalidate", "reset", "clear_cache")]
+            if inval and not any(isinstance(x, ast.Assign) and any(isinstance(tt, ast.Attribute) and tt.attr == cache for tt in x.targets) for m in inval for x in ast.walk(m.node)):
+                r.bad(
+                    fn,
+                    f"{fn.qualname} caches '{ast.unparse(expr)[:60]}' in self.{cache}, and the class has {inval[0].qualname}(), but that method does not reset self.{cache}: after an invalidation "
+                    "(a transformation of the underlying points) the cached value is still served to whoever reads it before the function is rebuilt",
+                    stores[0],
+                    key=key,
+                )
+                continue
             if stale_by:
                 m, hit = stale_by[0]
                 r.bad(
